@@ -85,6 +85,15 @@ def _setup(case):
     rooted = case["rooted"]
     ws = case.get("weights") or [None] * len(case["trees"])
     trees = [K.build(sp, ns, rooted=rooted, weight=w) for sp, w in zip(case["trees"], ws)]
+    if case.get("edited_after_encoding"):
+        # every tree was drawn differently when its bipartitions were encoded (the taxa of its first and last leaf exchanged) and has been
+        # edited into what it is now since: a summary made now must describe the trees as they are now
+        for t in trees:
+            lv = [nd for nd in S.pre(t._seed_node) if not nd._child_nodes]
+            if len(lv) >= 2:
+                lv[0].taxon, lv[-1].taxon = lv[-1].taxon, lv[0].taxon
+                t.encode_bipartitions()
+                lv[0].taxon, lv[-1].taxon = lv[-1].taxon, lv[0].taxon
     L = frozenset(t.label for t in ns._taxa)
     r = bool(rooted)
     split_sets = [Q.tree_splits(t, r, L) for t in trees]
@@ -107,7 +116,7 @@ def _key(case):
     parts.append(" ".join(K.spec_newick(sp) for sp in case["trees"]))
     if ws and any(w is not None for w in ws):
         parts.append("w=" + ",".join("-" if w is None else K._num(w) for w in ws))
-    for k in ("use_tree_weights", "th", "target", "settings", "include_external_splits"):
+    for k in ("use_tree_weights", "th", "target", "settings", "include_external_splits", "edited_after_encoding"):
         if k in case and case[k] not in (None,):
             v = case[k]
             if k == "target" and isinstance(v, list):
@@ -772,6 +781,18 @@ def gen_corner():
             for route in CON_ROUTES[:3]:
                 c = dict(base)
                 c.update(what="consensus", route=route, th=th)
+                add(c, True)
+    # trees that carry bipartitions encoded BEFORE their last edit, every route (the default of every summary is to encode again)
+    for combo in [(0, 0, 5), (3, 7, 7), (1, 2, 3), (25, 25, 4), (6, 6, 6, 11)]:
+        for rooted in (True, False):
+            base = dict(labels=K.LAB[:4], removed=[], trees=[tps[x] for x in combo], weights=None, rooted=rooted, edited_after_encoding=True)
+            for route in FREQ_ROUTES:
+                c = dict(base)
+                c.update(what="freq", route=route)
+                add(c, True)
+            for route in CON_ROUTES[:3]:
+                c = dict(base)
+                c.update(what="consensus", route=route, th=GTH)
                 add(c, True)
     # weights present but switched off (use_tree_weights=False), every route
     for combo, ws in [((0, 0, 5), [2, 1, 1]), ((3, 7, 7), [0.5, 2, None]), ((1, 2), [2, 0.5]), ((4, 4, 9, 9), [2, 2, 1, 0.5])]:
